@@ -133,4 +133,38 @@ def decapErspan2 (pkt : Bytes) : Option Erspan2 :=
     | _, _ => none
   | none => none
 
+/-! ## Positional decapsulation (outer datagrams that do not fit in 65535 bytes)
+
+An IPv4 total-length (and a UDP length) field cannot describe more than 65535 bytes, so the decoders above
+reject an outer packet that carries a larger inner frame.  Transparency of the tunnel *payload* is still a
+meaningful claim there: the inner frame is what follows the fixed-size outer headers.  `decapPositional`
+checks the fields that identify the tunnel (IP protocol, VXLAN flags, GRE flags / protocol) at their fixed
+offsets and returns everything after the headers, ignoring the length fields. -/
+
+inductive TunnelKind | vxlan | gre | erspan1 | erspan2
+  deriving Repr, DecidableEq
+
+def byteAt (b : Bytes) (i : Nat) : Nat := (b[i]?.map UInt8.toNat).getD 0
+
+/-- bytes of outer headers in front of the inner frame (20 IPv4 + …) -/
+def tunnelOverhead (k : TunnelKind) (pkt : Bytes) : Nat :=
+  match k with
+  | .vxlan => 20 + 8 + 8
+  | .gre => if (byteAt pkt 20 * 256 + byteAt pkt 21) &&& greS ≠ 0 then 20 + 4 + 4 else 20 + 4
+  | .erspan1 => 20 + 4
+  | .erspan2 => 20 + 4 + 4 + 8
+
+def decapPositional (k : TunnelKind) (pkt : Bytes) : Option Bytes :=
+  let ipProto := byteAt pkt 9
+  let greProto := byteAt pkt 22 * 256 + byteAt pkt 23
+  let greFlags := byteAt pkt 20 * 256 + byteAt pkt 21
+  let ok : Bool :=
+    byteAt pkt 0 == 0x45 &&
+    match k with
+    | .vxlan => ipProto == 17 && byteAt pkt 28 == 0x08
+    | .gre => ipProto == 47 && greFlags &&& (greC ||| greR ||| greK) == 0
+    | .erspan1 => ipProto == 47 && greProto == ethertypeErspan && greFlags &&& greS == 0
+    | .erspan2 => ipProto == 47 && greProto == ethertypeErspan && greFlags &&& greS != 0
+  if ok && tunnelOverhead k pkt ≤ pkt.length then some (pkt.drop (tunnelOverhead k pkt)) else none
+
 end Resynth.Spec
